@@ -376,7 +376,7 @@ func (w *World) Stake(val string, power int64) Outcome {
 	if !found {
 		return Outcome{Out: "err", Log: "no validator"}
 	}
-	target := sdk.TokensFromConsensusPower(power, sdk.DefaultPowerReduction)
+	target := sdk.TokensFromConsensusPower(power*w.Cfg.Scale(), sdk.DefaultPowerReduction)
 	cur := v.Tokens
 	if target.GT(cur) {
 		o, _ := w.Deliver("del", stakingtypes.NewMsgDelegate(w.N.Acct("del").Addr, valAddr, sdk.NewCoin(BondDenom, target.Sub(cur))))
